@@ -61,7 +61,13 @@ MASKED_CHOICES = [None, (0,), (), (0, 2), (-1,), (1, 3, 0), (2, 2)]
 OOV_CHOICES = [(2,), (), (1, 2), (3, 1, 2), (0,), (1, 1), (4, 2)]
 
 
+OFFSETS = [10**4, -10**5, 10**6, 8 * 10**6, -16000000]
+
+
 def _row(rng, c, mode):
+  if mode == 'offset':     # a large common offset, tiny differences (all exactly representable in float32)
+    off = rng.choice(OFFSETS)
+    return [off + rng.randrange(-2, 3) for _ in range(c)]
   if mode == 'const':
     v = rng.choice([0, 1, -2, '1e30', '-0.0'])
     return [v] * c
@@ -93,7 +99,7 @@ def _sweep_rows(rng, case):
 
 
 def _mode(rng):
-  return rng.choice(['small', 'small', 'small', 'two', 'two', 'const', 'extreme', 'zeros'])
+  return rng.choice(['small', 'small', 'small', 'two', 'two', 'const', 'extreme', 'zeros', 'offset'])
 
 
 def _logits_mask(rng, c, big):
@@ -152,7 +158,7 @@ def _form(rng, case):
   if case['pred'] is not None:
     toks = [v for r in (case['pred'] if case['metric'] in USES_PRED_SEQ else [case['pred']]) for v in r]
   toks += list(case['args'].get('lm', []))
-  plain = all(not isinstance(v, str) or v in ('inf', '-inf') for v in toks)   # small integers (and +-inf mask entries) only
+  plain = all((isinstance(v, int) and abs(v) <= 256) or v in ('inf', '-inf') for v in toks)   # small integers (and +-inf mask entries) only
   ys = case['y'] if isinstance(case['y'], list) else [case['y']]
   tds = ['int32', 'int32', 'int64']
   consts = ys + list(case['args'].get('masked', [0])) + list(case['args'].get('oovs', [])) + [case['args'].get('eos', 0)]
@@ -163,7 +169,7 @@ def _form(rng, case):
   pds = ['float32', 'float32']
   if plain and not case.get('nonfinite') and case['metric'] not in CE_METRICS:
     pds += ['float16', 'bfloat16', 'int32']   # (cross-entropy values in half precision are legitimately coarse)
-  return {'arr': rng.choice(['jax', 'numpy']), 'tdtype': rng.choice(tds), 'pdtype': rng.choice(pds),
+  return {'layout': rng.choice(['C', 'C', 'F', 'T', 'step2', 'neg', 'col', 'ro']), 'arr': rng.choice(['jax', 'numpy']), 'tdtype': rng.choice(tds), 'pdtype': rng.choice(pds),
           'ctor': rng.choice(['kw', 'pos']), 'extra': rng.random() < 0.25}
 
 
@@ -268,6 +274,29 @@ def generate(tier, rng):
         case = _one_case(rng, 'SequenceTokenTopKAccuracy', c=c, length=rng.choice([1, 2, 4]))
         case['args']['k'] = k
         yield case
+  # exhaustive small grids (wave 5 item 2)
+  yield {'kind': 'grid', 'which': 'topk', 'n': 3 if tier == 'quick' else 4}
+  yield {'kind': 'grid', 'which': 'seq', 'n': 4 if tier == 'quick' else 6}
+  # two metrics differing in ONE constructor field, evaluated one after the other through the jitted
+  # metrics.evaluate_batch (metric = static argument) on same-shaped batches (wave 5 item 5 / seed C05-w1)
+  for field, metric in [('lm', 'SequenceTokenAccuracy'), ('lm', 'SequenceTokenTopKAccuracy'), ('k', 'TopKAccuracy'),
+                        ('k', 'SequenceTokenTopKAccuracy'), ('masked', 'SequenceTokenAccuracy'), ('masked', 'SequenceLength'),
+                        ('masked', 'SequenceTokenCount'), ('pp', 'SequenceTokenOOVRate'), ('oovs', 'SequenceTokenOOVRate'),
+                        ('eos', 'SequenceTruncationRate'), ('masked', 'SequenceCrossEntropyLoss'), ('pp', 'SequenceTokenCrossEntropyLoss'),
+                        ('masked', 'SequenceCount'), ('nd', 'Accuracy'), ('keys', 'Accuracy')]:
+    for _ in range(1 if tier == 'quick' else 4):
+      case = _one_case(rng, metric, c=3, length=rng.choice([2, 4]))
+      if field == 'nd':
+        case = _with_domain(rng, case)
+        case.pop('dom2', None)
+      if field == 'lm':
+        case['args']['lm'] = [0, '-inf', 0] if rng.random() < 0.5 else [2, 0, -1]
+        case.pop('sweep', None)
+        case['pred'] = [_row(rng, 3, 'small') for _ in case['pred']]
+      if field == 'oovs' and not case['args']['oovs']:
+        case['args']['oovs'] = [1]
+      case['twin'] = field
+      yield case
   # non-finite base statistics (a -inf logit at a real target: loss = +inf), alone and under PerDomainMetric:
   # the other domains' slots must hold exact zeros, not inf * 0 = NaN
   for i in range({'quick': 12, 'thorough': 60}.get(tier, 100)):
@@ -348,12 +377,39 @@ def _metric(case):
   return m
 
 
+def _relayout(a, kind):
+  """The same values in another memory layout (wave 5 item 1); `a` is a fresh C-contiguous numpy array."""
+  if a.ndim == 0 or kind == 'C':
+    return a
+  if kind == 'F':
+    return np.asfortranarray(a)
+  if kind == 'T':                       # a transposed view of the transposed copy
+    return np.ascontiguousarray(a.T).T
+  if kind == 'step2':                   # every other row of a larger array
+    big = np.zeros((2 * a.shape[0],) + a.shape[1:], a.dtype)
+    big[::2] = a
+    big[1::2] = 77
+    return big[::2]
+  if kind == 'neg':                     # negative stride
+    return np.ascontiguousarray(a[::-1])[::-1]
+  if kind == 'col':                     # non-contiguous slice along the last axis of a wider array
+    big = np.full(a.shape[:-1] + (2 * a.shape[-1] + 1,), 55, a.dtype)
+    big[..., 1::2] = a
+    return big[..., 1::2]
+  if kind == 'ro':
+    a = a.copy()
+    a.setflags(write=False)
+    return a
+  return a
+
+
 def _example(case):
   import jax.numpy as jnp
   import types
   tk, pk = case['keys']
   form = case.get('form') or {'arr': 'jax', 'tdtype': 'int32', 'pdtype': 'float32'}
-  wrap = jnp.asarray if form['arr'] == 'jax' else (lambda a: a)
+  lay = form.get('layout', 'C')
+  wrap = jnp.asarray if form['arr'] == 'jax' else (lambda a: _relayout(a, lay))
   if form['tdtype'] == 'pyint':
     target = int(case['y'])
   else:
@@ -375,7 +431,7 @@ def _example(case):
       if form['arr'] == 'numpy':
         pred = np.asarray(pred)
     else:
-      pred = wrap(arr.astype(getattr(np, form['pdtype'])))
+      pred = wrap(np.ascontiguousarray(arr.astype(getattr(np, form['pdtype']))))
     if pk is not None:
       pred = {pk: pred, 'other': jnp.zeros_like(jnp.asarray(pred))}
   return ex, pred
@@ -453,15 +509,115 @@ def _extras(case, metric, ex, pred, obs):
       obs['nojit'] = _stat_obs(metric.evaluate_example(exd, pr))
 
 
+def _twin_case(case):
+  """The same case with ONE constructor field changed."""
+  t = json.loads(json.dumps(case))
+  f, a = case['twin'], t['args']
+  if f == 'lm':
+    a['lm'] = [(-1 if v == 0 else 0) if not isinstance(v, str) else 0 for v in a['lm']]
+  elif f == 'k':
+    a['k'] = a['k'] + 1 if a['k'] != 1 else 2
+  elif f == 'masked':
+    cur = a.get('masked', [0])
+    a['masked'] = [v for v in (0, 1, 2) if v not in cur][:1] or [7]
+  elif f == 'pp':
+    a['pp'] = not a['pp']
+  elif f == 'oovs':
+    a['oovs'] = [v + 1 for v in a['oovs']]
+  elif f == 'eos':
+    a['eos'] = a['eos'] + 1
+  elif f == 'nd':
+    t['dom'] = [t['dom'][0] + 1, t['dom'][1]]
+  elif f == 'keys':
+    t['keys'] = [t['keys'][0], 'other']
+  return t
+
+
+def _run_twin(case, obs):
+  import jax.numpy as jnp
+  import jax
+  from fedjax.core import metrics as M
+  metric, twin = _metric(case), _metric(_twin_case(case))
+  obs['twin_distinct'] = bool(metric != twin)
+  ex, pred = _example(case)
+  exb = {k: jnp.stack([jnp.asarray(v)] * 2) for k, v in dict(ex).items()}
+  prb = jax.tree_util.tree_map(lambda x: jnp.stack([jnp.asarray(x)] * 2), pred)
+  if case['twin'] == 'keys':
+    prb = dict(prb) if isinstance(prb, dict) else {'other': prb * 0 - 5.0}
+    prb.setdefault('other', jax.tree_util.tree_leaves(prb)[0] * 0 - 5.0)
+    prb = prb if case['keys'][1] is not None else prb
+  mask = jnp.array([True, False])
+  try:
+    M.evaluate_batch(twin, exb, prb if (case['twin'] == 'keys' or not isinstance(pred, dict)) else prb, mask)   # the OTHER metric first
+  except Exception:   # pylint: disable=broad-except
+    pass
+  if case['twin'] == 'keys' and case['keys'][1] is None:
+    prb = jax.tree_util.tree_map(lambda x: jnp.stack([jnp.asarray(x)] * 2), pred)
+  if case['dom'] is not None and case['args'].get('pp'):
+    obs['twin_stat'] = _stat_obs(M.evaluate_batch(metric, exb, prb))      # (mask + per-position per-domain: known finding)
+    obs['twin_rows'] = 2
+  else:
+    obs['twin_stat'] = _stat_obs(M.evaluate_batch(metric, exb, prb, mask))
+    obs['twin_rows'] = 1
+
+
+def _run_grid(case):
+  import itertools
+  import jax.numpy as jnp
+  from fedjax.core import metrics as M
+  out = []
+  if case['which'] == 'topk':
+    acc = M.Accuracy()
+    for c in range(1, case['n'] + 1):
+      tops = [M.TopKAccuracy(k=k) for k in range(-2, c + 2)]
+      for s in itertools.product([0, 1, 2], repeat=c):
+        pred = jnp.array(s, jnp.float32)
+        for t in range(c):
+          ex = {'y': jnp.array(t)}
+          out.append(float(acc.evaluate_example(ex, pred).accum))
+          out += [float(m.evaluate_example(ex, pred).accum) for m in tops]
+  else:
+    ms = [M.SequenceTruncationRate(eos_target_value=2), M.SequenceLength(), M.SequenceTokenCount(), M.SequenceCount()]
+    for l in range(1, case['n'] + 1):
+      for ts in itertools.product([0, 1, 2], repeat=l):
+        ex = {'y': jnp.array(ts)}
+        st = [m.evaluate_example(ex, None) for m in ms]
+        out += [float(st[0].accum), float(st[0].weight), float(st[1].accum), float(st[1].weight), float(st[2].accum), float(st[3].accum)]
+  return {'grid': out}
+
+
+def _ref_grid(case):
+  import itertools
+  out = []
+  if case['which'] == 'topk':
+    for c in range(1, case['n'] + 1):
+      for s in itertools.product([0, 1, 2], repeat=c):
+        order = _order(list(s))
+        for t in range(c):
+          out.append(1 if order[0] == t else 0)
+          out += [1 if (k >= 1 and t in order[:k]) else 0 for k in range(-2, c + 2)]
+  else:
+    for l in range(1, case['n'] + 1):
+      for ts in itertools.product([0, 1, 2], repeat=l):
+        real = [t for t in ts if t != 0]
+        ne = 1 if real else 0
+        out += [(0 if 2 in ts else 1) * ne, ne, len(real), ne, len(real), ne]
+  return out
+
+
 def run(case):
   if case.get('kind') == 'flags':
     return _run_flags(case)
+  if case.get('kind') == 'grid':
+    return _run_grid(case)
   from fedjax.core import metrics as M
   metric = _metric(case)
   ex, pred = _example(case)
   obs = _eval(metric, ex, pred)
   if case.get('form', {}).get('extra') or case.get('ctx'):
     _extras(case, metric, ex, pred, obs)
+  if case.get('twin') and 'error' not in obs:
+    _run_twin(case, obs)
   # the documented identities, observed on the implementation itself
   name, a = case['metric'], case['args']
   tk, pk = case['keys']
@@ -710,11 +866,26 @@ def _extra_oracle(case, obs, ref):
 
 
 def oracle(case, obs):
+  if case.get('kind') == 'grid':
+    want = _ref_grid(case)
+    bad = [i for i, (a, b) in enumerate(zip(obs['grid'], want)) if a != b]
+    if len(obs['grid']) != len(want) or bad:
+      return [(f'grid.{case["which"]}', f'{len(bad)} of {len(want)} grid points differ from the definition, first at index {bad[:1]}')]
+    return []
   if case.get('kind') == 'flags':
     return [(k, f'under {case["env"]}: {w} (case {json.dumps(c)[:300]})') for k, w, c in obs['violations']]
   ref = _ref(case)
   out = _cmp(case, obs, ref, '')
   out += _extra_oracle(case, obs, ref)
+  if 'twin_stat' in obs and ref != 'ValueError':
+    name = case['metric']
+    if obs.get('twin_distinct') is False:
+      out.append((f'{name}.eq-ignores-{case["twin"]}', f'two {name} objects differing in `{case["twin"]}` compare equal (a jit static argument would reuse the wrong trace)'))
+    kind, shape, acc, wt = ref
+    n = obs['twin_rows']
+    ref_b = (kind, shape, [a * n for a in acc], [w * n for w in wt])
+    out += [(k.replace(name, f'{name}.static-arg-after-twin', 1), f'metrics.evaluate_batch after the same call with a {name} differing only in `{case["twin"]}`: ' + w)
+            for k, w in _cmp(case, obs['twin_stat'], ref_b, '')][:1]
   if case.get('dom2') and case['args'].get('pp'):
     # the outer wrapper selects between the inner statistic (D1, length) and inner.zero() of shape (D1,): the known
     # zero()-shape defect surfacing inside evaluate_example (a broadcasting ValueError, or a mis-broadcast shape)
@@ -771,6 +942,10 @@ def _ranks(case):
 def encode(case, obs):
   if case.get('kind') == 'flags':
     return None
+  if case.get('kind') == 'grid':
+    b = f'KGridTopK {case["n"]}%nat' if case['which'] == 'topk' else f'KGridSeq {case["n"]}%nat'
+    vals = '[' + '; '.join(f'{int(v)}' for v in obs['grid']) + ']'
+    return f'(mkC14 None ({b}), mkO14 false false [{len(obs["grid"])}]%Z (map inject_Z {vals}%Z) [])'
   if case.get('dom2'):
     return None   # nested wrappers: oracle only (C14_per_domain_restricts is polymorphic in the base statistic)
   if case.get('nonfinite'):
@@ -824,6 +999,8 @@ def encode(case, obs):
 
 
 def nontrivial(case, obs):
+  if case.get('kind') == 'grid':
+    return True
   if case.get('kind') == 'flags':
     return obs.get('ran', 0) > 0
   if 'error' in obs:
@@ -832,6 +1009,8 @@ def nontrivial(case, obs):
 
 
 def describe(case, obs):
+  if case.get('kind') == 'grid':
+    return {'grid': case['which'], 'grid_points': len(obs['grid'])}
   if case.get('kind') == 'flags':
     return {'flags': json.dumps(case['env']), 'flag_cases_ran': obs.get('ran', 0)}
   d = {'metric': case['metric'], 'per_domain': case['dom'] is not None}
@@ -854,6 +1033,8 @@ def describe(case, obs):
 
 
 def shrink(case):
+  if case.get('kind') == 'grid':
+    return
   if case.get('kind') == 'flags':
     return
   if case['dom'] is not None:
